@@ -322,7 +322,10 @@ func (table *Table) DelAggregator(id int) error {
 
 	agg := conf.aggregators[id]
 	fmt.Println("len", len(conf.aggregators))
-	conf.aggregators = append(conf.aggregators[:id], conf.aggregators[id+1:]...)
+	// readers may still be iterating the current slice: build a new one instead of shifting it in place
+	aggregators := make([]*aggregator.Aggregator, 0, len(conf.aggregators)-1)
+	aggregators = append(aggregators, conf.aggregators[:id]...)
+	conf.aggregators = append(aggregators, conf.aggregators[id+1:]...)
 	fmt.Println("len", len(conf.aggregators))
 	agg.Shutdown()
 	table.config.Store(conf)
@@ -336,7 +339,10 @@ func (table *Table) DelBlacklist(index int) error {
 	if index >= len(conf.blacklist) {
 		return fmt.Errorf("Invalid index %d", index)
 	}
-	conf.blacklist = append(conf.blacklist[:index], conf.blacklist[index+1:]...)
+	// readers may still be iterating the current slice: build a new one instead of shifting it in place
+	blacklist := make([]*matcher.Matcher, 0, len(conf.blacklist)-1)
+	blacklist = append(blacklist, conf.blacklist[:index]...)
+	conf.blacklist = append(blacklist, conf.blacklist[index+1:]...)
 	table.config.Store(conf)
 	return nil
 }
@@ -359,9 +365,20 @@ func (table *Table) DelRewriter(id int) error {
 		return fmt.Errorf("Invalid index %d", id)
 	}
 
-	conf.rewriters = append(conf.rewriters[:id], conf.rewriters[id+1:]...)
+	// readers may still be iterating the current slice: build a new one instead of shifting it in place
+	rewriters := make([]rewriter.RW, 0, len(conf.rewriters)-1)
+	rewriters = append(rewriters, conf.rewriters[:id]...)
+	conf.rewriters = append(rewriters, conf.rewriters[id+1:]...)
 	table.config.Store(conf)
 	return nil
+}
+
+// withoutRoute returns a copy of routes that lacks the element at index i.
+// readers may still be iterating the current slice, so it must not be shifted in place
+func withoutRoute(routes []route.Route, i int) []route.Route {
+	res := make([]route.Route, 0, len(routes)-1)
+	res = append(res, routes[:i]...)
+	return append(res, routes[i+1:]...)
 }
 
 // idempotent semantics, not existing is fine
@@ -382,7 +399,7 @@ func (table *Table) DelRoute(key string) error {
 		return nil
 	}
 
-	conf.routes = append(conf.routes[:toDelete], conf.routes[toDelete+1:]...)
+	conf.routes = withoutRoute(conf.routes, toDelete)
 	table.config.Store(conf)
 
 	err := route.Shutdown()
